@@ -4,25 +4,13 @@
    for the binding: every (phase, ev1 [, ev2 at point]) that is feasible in the model is printed. *)
 EXTENDS Lifecycle, Json
 
-CONSTANTS MaxEvents, PhaseSet, Ev1Set, Ev2Set
-
-Seqs1 == {<<e>> : e \in Ev1Set}
-Seqs2 == {<<e, f>> : e \in Ev1Set, f \in Ev2Set}
-EvSeqs == IF MaxEvents >= 2 THEN Seqs1 \cup Seqs2 ELSE Seqs1
-
-HasDrop(q) == \E i \in 1..Len(q) : q[i] = "Drop"
-
-MCPlans == {[phase |-> p, evs |-> q,
-             pendingWfc |-> (~HasDrop(q) /\ p \notin {"created", "gathering", "offerMade"}),
-             afterWfc |-> ~HasDrop(q)] : p \in PhaseSet, q \in EvSeqs}
-
 \* history-free view: `fired` records only which events fired and where, which is part of the state
 view == vars
 
 \* one line per completed firing plan: the scenario the harness runs
 EmitScenario ==
-    IF fired' # fired /\ plan'.evs = <<>>
-    THEN PrintT(<<"SCEN", ToJson([mode |-> Mode, phase |-> plan.phase, traffic |-> Traffic,
+    IF fired' # fired
+    THEN PrintT(<<"SCEN", ToJson([mode |-> Mode, phase |-> fired'[1].phase, traffic |-> Traffic, dc |-> Dc,
                                    evs |-> [i \in 1..Len(fired') |-> fired'[i].ev],
                                    ats |-> [i \in 1..Len(fired') |-> fired'[i].at]])>>)
     ELSE TRUE
